@@ -15,7 +15,7 @@ abbrev R := Option Nat × Nat
 
 /-- idna.c:117-134, the code after the `switch`.  `used` = bytes consumed so far. -/
 def finish (min a b c d used : Nat) : R :=
-  if 0x80 ≠ (0xC0 &&& (b ^^^ c ^^^ d)) then (none, used)        -- :117 "Invalid sequence"
+  if 0x80 ≠ (0xC0 &&& b) ∨ 0x80 ≠ (0xC0 &&& c) ∨ 0x80 ≠ (0xC0 &&& d) then (none, used)   -- :117 "Invalid sequence"
   else
     let b := b &&& 63
     let c := c &&& 63
